@@ -426,6 +426,12 @@ class Parser(object):
                 t.lineno(1), t.lexpos(1)
             )
             t[0] = 0
+        except ValueError:
+            self._parser_error(
+                "invalid shift count '{}'".format(t[3]),
+                t.lineno(1), t.lexpos(1)
+            )
+            t[0] = 0
         t.slice[0].lineno = t.lineno(1)
         t.slice[0].lexpos = t.lexpos(1)
 
